@@ -97,7 +97,7 @@ static int build_file(int kind) {
 	if (kind == F_INITFAIL_3RD) b[2].chain = 3;
 	if (kind == F_EMPTY_MID) { b[1].len = 0; b[2].data = plain + bsz; }
 	plen = 0; for (int i = 0; i < nb; i++) plen += b[i].len;
-	clen = mk_xz(comp, sizeof comp, b, nb, LZMA_CHECK_CRC32, &lay); if (!clen) return -1;
+	clen = mk_xz(comp, sizeof comp, b, nb, kind == F_3BLK || kind == F_UNSIZED_MID ? LZMA_CHECK_SHA256 : LZMA_CHECK_CRC32, &lay); if (!clen) return -1;	// SHA-256 where three Blocks can be checked by different workers at the same time
 	switch (kind) {
 	case F_BADCHECK_LAST: comp[lay.off[nb - 1] + lay.total[nb - 1] - 2] ^= 1; break;
 	case F_BAD_FIRST: comp[lay.off[0] + lay.hdr[0] + 3] ^= 0x04; break;
